@@ -224,10 +224,15 @@ def load(repo=REPO, target_dir=None):
             with open(tmp, "w") as fh:
                 json.dump(doc, fh)
             os.rename(tmp, path)
-            # keep the cache small: retain the 6 most recent fact files
-            olds = sorted(glob.glob(os.path.join(fdir, "*.json")), key=os.path.getmtime)[:-6]
+            # keep the cache small: retain the 12 most recent fact files, and never evict one written in the last 20 minutes
+            # (parallel runs over many scratch trees would otherwise evict each other's facts between two checks)
+            olds = sorted(glob.glob(os.path.join(fdir, "*.json")), key=os.path.getmtime)[:-12]
             for o in olds:
-                os.unlink(o)
+                try:
+                    if time.time() - os.path.getmtime(o) > 1200:
+                        os.unlink(o)
+                except OSError:
+                    pass
             doc["_cache"] = "miss"
     finally:
         fcntl.flock(lock, fcntl.LOCK_UN)
